@@ -110,7 +110,7 @@ MUTANTS = [
     M("c15-v1-shift", "C15", "break", [(AWQP, "            packed[:, col] |= packed_col << (i * bits)", "            packed[:, col] |= packed_col << (i * pack_num)")], "C15.R4"),
     M("c15-v1-reorder-ignored", "C15", "break", [(AWQP, "    if reorder:\n        unpacked = reverse_awq_order(unpacked)\n", "")], "C15.R4"),
     M("c15-v1-mask", "C15", "break", [(AWQP, "    unpacked = torch.bitwise_and(unpacked, (2**bits) - 1)", "    unpacked = torch.bitwise_and(unpacked, 2**bits)")], "C15.R4"),
-    M("c15-ctor-zp-sign", "C15", "break", [(AWQQ, "            zeropoint = (-zeropoint * scale).contiguous()", "            zeropoint = (zeropoint * scale).contiguous()")], None),
+    M("c15-ctor-zp-sign", "C15", "break", [(AWQQ, "            zeropoint = (-zeropoint.to(scale.dtype) * scale).contiguous()", "            zeropoint = (zeropoint.to(scale.dtype) * scale).contiguous()")], None),
     M("c15-dequant-sub", "C15", "break", [(AWQQ, "        dqt = scale * unpacked + zeropoint", "        dqt = scale * (unpacked + zeropoint)")], "C15.R5"),
     M("c15-dequant-no-group", "C15", "break", [(AWQQ, "        unpacked = group(unpacked, axis=0, group_size=t._group_size)\n", "")], "C15.R5"),
     M("c15-create-any-group", "C15", "break", [(QBITS, "            and group_size == 128\n", "")], "C15.R7"),
